@@ -2,6 +2,7 @@ package codescan
 
 import (
 	"go/ast"
+	"sort"
 
 	"github.com/go-openapi/spec"
 )
@@ -196,7 +197,7 @@ func (s *specBuilder) buildModels() error {
 		return nil
 	}
 
-	for _, decl := range s.ctx.app.Models {
+	for _, decl := range sortedDecls(s.ctx.app.Models) {
 		if err := s.buildDiscoveredSchema(decl); err != nil {
 			return err
 		}
@@ -214,7 +215,7 @@ func (s *specBuilder) joinExtraModels() error {
 	}
 
 	// process extra models and see if there is any reference to a new extra one
-	for _, decl := range tmp {
+	for _, decl := range sortedDecls(tmp) {
 		if err := s.buildDiscoveredSchema(decl); err != nil {
 			return err
 		}
@@ -225,6 +226,25 @@ func (s *specBuilder) joinExtraModels() error {
 	}
 
 	return nil
+}
+
+// sortedDecls lists the declarations by package path and type name: types of the same name declared in
+// different packages compete for one definition name, so the order in which they are built must not
+// depend on map iteration.
+func sortedDecls(decls map[*ast.Ident]*entityDecl) []*entityDecl {
+	sorted := make([]*entityDecl, 0, len(decls))
+	for _, decl := range decls {
+		sorted = append(sorted, decl)
+	}
+	key := func(d *entityDecl) string {
+		k := d.Ident.Name
+		if d.Pkg != nil {
+			k = d.Pkg.PkgPath + "." + k
+		}
+		return k
+	}
+	sort.SliceStable(sorted, func(i, j int) bool { return key(sorted[i]) < key(sorted[j]) })
+	return sorted
 }
 
 func collectOperationsFromInput(input *spec.Swagger) map[string]*spec.Operation {
